@@ -90,6 +90,46 @@ fn serialise(chunks: &[Chunk], tail: &[u8]) -> Vec<u8> {
     out
 }
 
+/// Values at and around the edges of the Unicode scalar value range.
+pub const CHAR_EDGES: [u32; 16] = [
+    0xD7FF, 0xD800, 0xD801, 0xDBFF, 0xDC00, 0xDFFE, 0xDFFF, 0xE000, 0x10_FFFF, 0x11_0000, 0x11_D800, 0x7fff_ffff, 0x8000_0041, 0x8000_D800, 0xffff_ffff,
+    0xFFFE,
+];
+
+/// Offsets of the cell records (attribute word first) in a layer record or a layer continuation
+/// record, with whether each is in the short form. Records are self-delimiting, so the walk does not
+/// need the layer's width.
+fn cell_records(keyword: &str, rec: &[u8]) -> Vec<(usize, bool)> {
+    let mut o = 0usize;
+    if !keyword.contains('~') {
+        if rec.len() < 4 {
+            return Vec::new();
+        }
+        let tl = u32::from_le_bytes([rec[0], rec[1], rec[2], rec[3]]) as usize;
+        o = 4usize.saturating_add(tl);
+        if rec.len() < o.saturating_add(41) || rec[o] == 1 {
+            return Vec::new();
+        }
+        o += 41;
+    }
+    let mut v = Vec::new();
+    while o + 2 <= rec.len() {
+        let attr = u16::from_le_bytes([rec[o], rec[o + 1]]);
+        if attr == 0xC000 || attr & !0x4000 == 0x8000 {
+            o += 2;
+            continue;
+        }
+        let short = attr & 0x4000 != 0;
+        let len = if short { 6 } else { 16 };
+        if o + len > rec.len() {
+            break;
+        }
+        v.push((o, short));
+        o += len;
+    }
+    v
+}
+
 /// Damages the record bytes inside one zTXt chunk of an IcyDraw file. Returns the annotation, or None if
 /// the bytes are not such a file.
 pub fn inner_fault(rng: &mut Rng, bytes: &mut Vec<u8>) -> Option<String> {
@@ -112,7 +152,25 @@ pub fn inner_fault(rng: &mut Rng, bytes: &mut Vec<u8>) -> Option<String> {
     let mut rec = b64_decode(&text)?;
     let n = rec.len();
     let ann;
-    if n == 0 {
+    let cells = if keyword.starts_with("LAYER_") && rng.chance(1, 3) { cell_records(&keyword, &rec) } else { Vec::new() };
+    if !cells.is_empty() {
+        // the character field of one cell record, set to a value at or around the edges of the scalar
+        // value range; a short (8-bit) record is first widened to the long form that has a 32-bit field
+        let (at, short) = *rng.pick(&cells);
+        let v: u32 = *rng.pick(&CHAR_EDGES);
+        if short {
+            let attr = u16::from_le_bytes([rec[at], rec[at + 1]]) & !0x4000;
+            let (ch, fg, bg, fp) = (rec[at + 2], rec[at + 3], rec[at + 4], rec[at + 5]);
+            let mut long = attr.to_le_bytes().to_vec();
+            long.extend(u32::from(ch).to_le_bytes());
+            long.extend(u32::from(fg).to_le_bytes());
+            long.extend(u32::from(bg).to_le_bytes());
+            long.extend(u16::from(fp).to_le_bytes());
+            rec.splice(at..at + 6, long);
+        }
+        rec[at + 2..at + 6].copy_from_slice(&v.to_le_bytes());
+        ann = format!("icy_inner chunk={keyword} kind=cell_char at={at} widened={short} value={v:#x}");
+    } else if n == 0 {
         rec.extend([0xff, 0xff, 0xff, 0x7f]);
         ann = format!("icy_inner chunk={keyword} kind=grow");
     } else {
